@@ -1,4 +1,439 @@
-// placeholder until the slot harness lands (keeps vprops.HARNESSES consistent)
+// slots — hazard pointer / hazard era slots (C18): K slots available with the static strategy, exhaustion is
+// reported by bad_hazard_pointer_alloc / bad_hazard_era_alloc, existing guards keep protecting, slots are reusable,
+// the dynamic strategy never runs out; across thread exit and control-block reuse.
+#include "prelude_begin.hpp"
+
+#include <xenium/reclamation/hazard_eras.hpp>
+#include <xenium/reclamation/hazard_pointer.hpp>
+
+#include "prelude_end.hpp"
+
 #include "hcommon.hpp"
-namespace { void nothing() { vrt::nontrivial(); } const vrt::Cfg cfgs[] = {vrt::Cfg{"none", &nothing, "quick"}}; const vrt::Harness harness{"slots", cfgs, 1}; }
-extern "C" const vrt::Harness* vrt_harness() { return &harness; }
+
+using namespace xenium;
+namespace rec = xenium::reclamation;
+
+namespace {
+
+constexpr int MAXN = 64;
+constexpr int MAXV = 8;
+constexpr int MAXOPS = 24;
+
+struct Reg {
+  bool allocated[MAXN], retired[MAXN], destroyed[MAXN];
+  int n = 0;
+  int held[MAXV]; // object id held by guard variable (by the model), -1 none
+} R;
+
+template <class Rc>
+struct Node;
+template <class Rc>
+struct Del {
+  int id = -1;
+  void operator()(Node<Rc>* n) const;
+};
+template <class Rc>
+struct Node : Rc::template enable_concurrent_ptr<Node<Rc>, 1, Del<Rc>> {
+  int id;
+  uint32_t canary = 0xFACADE;
+  explicit Node(int i) : id(i) {}
+};
+template <class Rc>
+void Del<Rc>::operator()(Node<Rc>* n) const {
+  if (n->id != id) vrt::fail("wrong_deleter", "deleter of object %d applied to object %d", id, n->id);
+  if (R.destroyed[id]) vrt::fail("double_destroy", "object %d destroyed twice", id);
+  for (int v = 0; v < MAXV; ++v)
+    if (R.held[v] == id) vrt::fail("destroyed_while_guarded", "object %d destroyed while guard variable %d protects it", id, v);
+  R.destroyed[id] = true;
+  n->canary = 0;
+  delete n;
+}
+
+enum OpK : uint8_t { S_NOP = 0, S_ACQUIRE, S_ACQ_EQ, S_COPY_ASSIGN, S_MOVE_ASSIGN, S_SWAP, S_RESET, S_RECREATE, S_COPY_CTOR, S_MOVE_CTOR, S_FROM_PTR, S_RETIRE, S_USE, S_LOOP, S_NK };
+const char* const names[S_NK] = {"nop",   "acquire",  "acquire_if_equal", "copy_assign", "move_assign", "swap", "reset",
+                                 "destroy+default", "copy_ctor", "move_ctor",        "ctor_from_ptr", "retire+scan", "use", "acquire/release x2000"};
+struct Op {
+  uint8_t kind, i, j, c;
+};
+
+template <class Rc, class BadAlloc, int K, bool STATIC>
+struct SlotHarness {
+  using N = Node<Rc>;
+  using CP = typename Rc::template concurrent_ptr<N, 1>;
+  using MP = typename CP::marked_ptr;
+  using GP = typename CP::guard_ptr;
+  static constexpr int NV = K + 2;
+
+  CP cells[2];
+  int cell_obj[2] = {-1, -1};
+  N* objs[MAXN] = {};
+  Op progs[3][MAXOPS];
+  int nthreads = 1;
+  bool reached_full = false, threw = false;
+  uint64_t hist = 0;
+
+  N* fresh() {
+    if (R.n >= MAXN) vrt::inconclusive("too_many_objects");
+    int id = R.n++;
+    R.allocated[id] = true;
+    vrt::TagScope ts(vrt::TAG_CLIENT);
+    objs[id] = new N(id);
+    return objs[id];
+  }
+
+  struct Var {
+    alignas(GP) unsigned char buf[sizeof(GP)];
+    bool maybe_slot = false; // empty, but not reset/destroyed/moved-from since it may have got a slot
+    GP& g() { return *reinterpret_cast<GP*>(buf); }
+  };
+
+  void run_thread(int prog) {
+    Var v[MAXV];
+    for (int i = 0; i < MAXV; ++i) R.held[i] = -1;
+    for (int i = 0; i < NV; ++i) new (v[i].buf) GP();
+    auto protecting = [&] {
+      int p = 0;
+      for (int i = 0; i < NV; ++i) p += R.held[i] >= 0;
+      return p;
+    };
+    auto upper = [&] { // upper bound of slots in use
+      int u = 0;
+      for (int i = 0; i < NV; ++i) u += (R.held[i] >= 0) || v[i].maybe_slot;
+      return u;
+    };
+    auto verify = [&](const char* after) {
+      for (int i = 0; i < NV; ++i) {
+        GP& g = v[i].g();
+        int id = g.get() ? g.get()->id : -1;
+        if (id != R.held[i]) vrt::fail("guard_value_model", "after %s guard variable %d holds object %d, the model says %d", after, i, id, R.held[i]);
+        if (id >= 0) {
+          vrt::check_access(g.get(), sizeof(N), false);
+          if (g.get()->canary != 0xFACADE || R.destroyed[id]) vrt::fail("use_after_destroy", "after %s guard variable %d refers to destroyed object %d", after, i, id);
+        }
+      }
+    };
+    // helper: does performing `f` (which may need one new slot for variable `target`) throw?
+    auto attempt = [&](int target, bool needs_slot_if_protecting, auto&& f, const char* what) -> bool {
+      bool target_has_slot = R.held[target] >= 0 || v[target].maybe_slot;
+      int u = upper();
+      try {
+        f();
+        return true;
+      } catch (const BadAlloc&) {
+        threw = true;
+        vrt::label("allocation_exception_thrown");
+        if (!STATIC) vrt::fail("dynamic_strategy_threw", "%s threw although the dynamic allocation strategy is used", what);
+        (void)target_has_slot;
+        (void)needs_slot_if_protecting;
+        if (u < K) vrt::fail("slots_not_available", "%s threw although at most %d of the %d slots can be in use (%d protecting guards)", what, u, K, protecting());
+        return false;
+      } catch (...) {
+        vrt::fail("wrong_exception", "%s threw something else than the allocation exception of the scheme", what);
+      }
+    };
+    auto after_throw = [&](int target) {
+      // the target is brought into a defined state; everybody else must be untouched
+      v[target].g().reset();
+      R.held[target] = -1;
+      v[target].maybe_slot = false;
+      verify("an allocation exception");
+    };
+
+    // a new thread (also one that re-uses the control block of an exited thread) has all K slots available
+    if (STATIC || true) {
+      int got = 0;
+      for (int i = 0; i < K && i < NV; ++i) {
+        bool ok = attempt(i, true, [&] { v[i].g().acquire(cells[i % 2], std::memory_order_acquire); }, "initial acquire");
+        if (!ok) vrt::fail("slots_not_available", "a fresh thread could only hold %d of K=%d protecting guards", got, K);
+        R.held[i] = cell_obj[i % 2];
+        got++;
+      }
+      verify("initial acquires");
+      reached_full = true;
+      for (int i = 0; i < K && i < NV; ++i) {
+        v[i].g().reset();
+        R.held[i] = -1;
+      }
+    }
+
+    for (int k = 0; k < MAXOPS; ++k) {
+      Op op = progs[prog][k];
+      if (op.kind == S_NOP) continue;
+      int i = op.i % NV, j = op.j % NV, c = op.c % 2;
+      hist = vh::hmix(hist, op.kind * 512 + i * 64 + j * 8 + c);
+      switch (op.kind) {
+      case S_ACQUIRE: {
+        bool ok = attempt(i, true, [&] { v[i].g().acquire(cells[c], std::memory_order_acquire); }, "acquire");
+        if (ok) {
+          R.held[i] = cell_obj[c];
+          v[i].maybe_slot = false;
+        } else
+          after_throw(i);
+        break;
+      }
+      case S_ACQ_EQ: {
+        MP expected = op.j % 3 == 0 ? MP(objs[cell_obj[c]]) : op.j % 3 == 1 ? MP(objs[cell_obj[1 - c]]) : MP();
+        bool res = false;
+        bool ok = attempt(i, true, [&] { res = v[i].g().acquire_if_equal(cells[c], expected, std::memory_order_acquire); }, "acquire_if_equal");
+        if (ok) {
+          bool want = expected == cells[c].load();
+          if (res != want) vrt::fail("acquire_if_equal_mismatch", "acquire_if_equal returned %d but should return %d", (int)res, (int)want);
+          R.held[i] = res ? cell_obj[c] : -1;
+          v[i].maybe_slot = !res; // a failed acquire_if_equal is not a reset in the sense of the statement
+          if (!res && v[i].g().get() != nullptr) vrt::fail("acquire_if_equal_mismatch", "acquire_if_equal returned false but left the guard non-empty");
+        } else
+          after_throw(i);
+        break;
+      }
+      case S_COPY_ASSIGN: {
+        if (i == j) {
+          auto& ref = v[j].g();
+          v[i].g() = ref;
+          break;
+        }
+        bool ok = attempt(i, true, [&] { v[i].g() = v[j].g(); }, "copy assignment");
+        if (ok) {
+          R.held[i] = R.held[j];
+          v[i].maybe_slot = R.held[i] < 0; // hazard pointers keep/allocate a slot when an empty guard is assigned
+        } else
+          after_throw(i);
+        break;
+      }
+      case S_MOVE_ASSIGN:
+        if (i != j) {
+          v[i].g() = std::move(v[j].g());
+          R.held[i] = R.held[j];
+          R.held[j] = -1;
+          v[i].maybe_slot = v[j].maybe_slot && R.held[i] < 0;
+          v[j].maybe_slot = false;
+        } else {
+          auto& ref = v[j].g();
+          v[i].g() = std::move(ref);
+        }
+        break;
+      case S_SWAP:
+        v[i].g().swap(v[j].g());
+        std::swap(R.held[i], R.held[j]);
+        std::swap(v[i].maybe_slot, v[j].maybe_slot);
+        break;
+      case S_RESET:
+        v[i].g().reset();
+        if (op.c) v[i].g().reset();
+        R.held[i] = -1;
+        v[i].maybe_slot = false;
+        break;
+      case S_RECREATE:
+        v[i].g().~GP();
+        new (v[i].buf) GP();
+        R.held[i] = -1;
+        v[i].maybe_slot = false;
+        break;
+      case S_COPY_CTOR: {
+        if (i == j) break;
+        v[i].g().~GP();
+        R.held[i] = -1;
+        v[i].maybe_slot = false;
+        bool constructed = false;
+        bool ok = attempt(i, false, [&] {
+          new (v[i].buf) GP(v[j].g());
+          constructed = true;
+        }, "copy construction");
+        if (ok) {
+          R.held[i] = R.held[j];
+        } else {
+          if (!constructed) new (v[i].buf) GP();
+          verify("an allocation exception");
+        }
+        break;
+      }
+      case S_MOVE_CTOR: {
+        if (i == j) break;
+        v[i].g().~GP();
+        new (v[i].buf) GP(std::move(v[j].g()));
+        R.held[i] = R.held[j];
+        R.held[j] = -1;
+        v[i].maybe_slot = v[j].maybe_slot && R.held[i] < 0;
+        v[j].maybe_slot = false;
+        if (v[j].g().get() != nullptr) vrt::fail("move_leaves_source", "moved-from guard is not empty");
+        break;
+      }
+      case S_FROM_PTR: {
+        // guard constructed from a pointer: the object is linked into the cell and not retired, so it cannot be reclaimed
+        v[i].g().~GP();
+        R.held[i] = -1;
+        v[i].maybe_slot = false;
+        bool constructed = false;
+        bool ok = attempt(i, false, [&] {
+          new (v[i].buf) GP(MP(objs[cell_obj[c]]));
+          constructed = true;
+        }, "construction from marked_ptr");
+        if (ok)
+          R.held[i] = cell_obj[c];
+        else {
+          if (!constructed) new (v[i].buf) GP();
+          verify("an allocation exception");
+        }
+        break;
+      }
+      case S_RETIRE: {
+        // another thread replaces the object in the cell, retires the old one and thereby scans (threshold 0)
+        struct Arg {
+          SlotHarness* h;
+          int c;
+        } arg{this, c};
+        int t = vrt::spawn(
+          [](void* a) {
+            auto* x = static_cast<Arg*>(a);
+            SlotHarness* h = x->h;
+            N* n = h->fresh();
+            GP old;
+            old.acquire(h->cells[x->c], std::memory_order_acquire);
+            h->cells[x->c].store(MP(n), std::memory_order_release);
+            int oid = old->id;
+            R.retired[oid] = true;
+            old.reclaim(Del<Rc>{oid});
+            h->cell_obj[x->c] = n->id;
+          },
+          &arg);
+        vrt::join(t);
+        vrt::label("retire_and_scan_by_other_thread");
+        break;
+      }
+      case S_USE: verify("use"); break;
+      case S_LOOP: {
+        // repeated acquire/release never exhausts the slots
+        if (upper() - ((R.held[i] >= 0 || v[i].maybe_slot) ? 1 : 0) >= K && STATIC) break; // the others occupy everything: nothing promised
+        v[i].g().reset();
+        R.held[i] = -1;
+        v[i].maybe_slot = false;
+        int rounds = (int)vrt::param("loop_rounds", 2000); // the thorough tier uses 10000
+        for (int r = 0; r < rounds; ++r) {
+          vrt::op_begin(1);
+          try {
+            v[i].g().acquire(cells[r & 1], std::memory_order_acquire);
+          } catch (...) {
+            vrt::fail("slots_not_reusable", "acquire/release round %d threw: released slots are not reusable", r);
+          }
+          if (v[i].g().get() != objs[cell_obj[r & 1]]) vrt::fail("guard_value_model", "acquire in round %d returned a wrong object", r);
+          v[i].g().reset();
+          vrt::op_end();
+        }
+        vrt::label("acquire_release_loop");
+        break;
+      }
+      default: break;
+      }
+      if (STATIC && protecting() >= K) reached_full = true;
+      verify(names[op.kind]);
+      // claim (iii): after an exception, releasing one guard makes the same kind of operation succeed
+      if (threw && STATIC && op.kind == S_ACQUIRE) {
+        bool failed_now = R.held[i] < 0 && !v[i].maybe_slot && cell_obj[c] >= 0;
+        if (failed_now && upper() >= K) {
+          for (int x = 0; x < NV; ++x)
+            if (v[x].maybe_slot) {
+              v[x].g().reset();
+              v[x].maybe_slot = false;
+            }
+          // hazard eras share a slot between copies, so more than K guards can protect at once; the promise is
+          // that the thread can continue once fewer than K guards protect (for hazard pointers: after releasing one)
+          for (int x = 0; x < NV && protecting() >= K; ++x)
+            if (R.held[x] >= 0) {
+              v[x].g().reset();
+              R.held[x] = -1;
+            }
+          try {
+            v[i].g().acquire(cells[c], std::memory_order_acquire);
+          } catch (...) {
+            vrt::fail("no_recovery_after_exhaustion", "acquire still throws after another guard was released");
+          }
+          R.held[i] = cell_obj[c];
+          verify("recovery after exhaustion");
+          vrt::label("recovered_after_release");
+        }
+      }
+    }
+    for (int i = NV - 1; i >= 0; --i) {
+      v[i].g().~GP();
+      R.held[i] = -1;
+    }
+  }
+
+  void run() {
+    nthreads = 1 + (int)vrt::choose(3);
+    static const uint32_t w[S_NK] = {6, 14, 6, 6, 4, 3, 6, 2, 4, 3, 4, 2, 4, 1};
+    for (int t = 0; t < 3; ++t)
+      for (int k = 0; k < MAXOPS; ++k) {
+        Op o;
+        o.kind = (uint8_t)vrt::weighted(w, S_NK);
+        o.i = (uint8_t)vrt::choose(NV);
+        o.j = (uint8_t)vrt::choose(NV);
+        o.c = (uint8_t)vrt::choose(2);
+        progs[t][k] = o;
+      }
+    if (vrt::want_desc()) {
+      vrt::desc("K=%d %s strategy, %d guard variables, %d thread(s) one after the other\n", K, STATIC ? "static" : "dynamic", NV, nthreads);
+      for (int t = 0; t < nthreads; ++t) {
+        vrt::desc("  T%d:", t + 1);
+        for (int k = 0; k < MAXOPS; ++k)
+          if (progs[t][k].kind) vrt::desc(" %s(v%d,v%d,cell%d)", names[progs[t][k].kind], progs[t][k].i % NV, progs[t][k].j % NV, progs[t][k].c % 2);
+        vrt::desc("\n");
+      }
+    }
+    for (int c = 0; c < 2; ++c) {
+      N* n = fresh();
+      cells[c].store(MP(n), std::memory_order_release);
+      cell_obj[c] = n->id;
+    }
+    for (int t = 0; t < nthreads; ++t) {
+      struct Arg {
+        SlotHarness* h;
+        int t;
+      } arg{this, t};
+      int tid = vrt::spawn([](void* a) { static_cast<Arg*>(a)->h->run_thread(static_cast<Arg*>(a)->t); }, &arg);
+      vrt::join(tid);
+    }
+    vrt::fp(hist);
+    vrt::fp((uint64_t)nthreads);
+    if (threw) vrt::label("exhaustion_observed");
+    if (reached_full) vrt::nontrivial();
+  }
+};
+
+template <class Rc, class BadAlloc, int K, bool STATIC>
+void run_s() {
+  vrt::TagScope ts(vrt::TAG_HARNESS);
+  auto* h = new SlotHarness<Rc, BadAlloc, K, STATIC>();
+  vrt::set_alloc_tag(vrt::TAG_DEFAULT);
+  h->run();
+}
+
+template <int K>
+using HPs = rec::hazard_pointer<>::with<policy::allocation_strategy<rec::hp_allocation::static_strategy<K, 0, 0>>>;
+template <int K>
+using HPd = rec::hazard_pointer<>::with<policy::allocation_strategy<rec::hp_allocation::dynamic_strategy<K, 0, 0>>>;
+template <int K>
+using HEs = rec::hazard_eras<>::with<policy::allocation_strategy<rec::he_allocation::static_strategy<K, 0, 0>>>;
+template <int K>
+using HEd = rec::hazard_eras<>::with<policy::allocation_strategy<rec::he_allocation::dynamic_strategy<K, 0, 0>>>;
+
+#define SC(name, R, E, K, ST, tags) vrt::Cfg{name, &run_s<R, E, K, ST>, tags}
+const vrt::Cfg cfgs[] = {
+  SC("hp_static1", HPs<1>, rec::bad_hazard_pointer_alloc, 1, true, "quick,hp"),
+  SC("hp_static2", HPs<2>, rec::bad_hazard_pointer_alloc, 2, true, "quick,hp"),
+  SC("hp_static3", HPs<3>, rec::bad_hazard_pointer_alloc, 3, true, "quick,hp"),
+  SC("hp_static5", HPs<5>, rec::bad_hazard_pointer_alloc, 5, true, "quick,hp"),
+  SC("hp_dynamic1", HPd<1>, rec::bad_hazard_pointer_alloc, 1, false, "quick,hp"),
+  SC("hp_dynamic2", HPd<2>, rec::bad_hazard_pointer_alloc, 2, false, "quick,hp"),
+  SC("he_static1", HEs<1>, rec::bad_hazard_era_alloc, 1, true, "quick,he"),
+  SC("he_static2", HEs<2>, rec::bad_hazard_era_alloc, 2, true, "quick,he"),
+  SC("he_static3", HEs<3>, rec::bad_hazard_era_alloc, 3, true, "quick,he"),
+  SC("he_static5", HEs<5>, rec::bad_hazard_era_alloc, 5, true, "quick,he"),
+  SC("he_dynamic1", HEd<1>, rec::bad_hazard_era_alloc, 1, false, "quick,he"),
+  SC("he_dynamic2", HEd<2>, rec::bad_hazard_era_alloc, 2, false, "quick,he"),
+};
+const vrt::Harness harness{"slots", cfgs, (int)(sizeof cfgs / sizeof cfgs[0])};
+} // namespace
+
+extern "C" const vrt::Harness* vrt_harness() {
+  return &harness;
+}
